@@ -802,17 +802,23 @@ theorem docKind_copyNew_iff (op : Op) :
     docKind op = .copyNew ↔ IsCopyOp op ∨ ∃ h lat, op = .ctor (some (.stru h)) lat := by
   constructor
   · intro h
-    cases op <;> simp only [docKind] at h <;> try (first | exact Or.inl (by constructor) | cases h)
-    all_goals (first
-      | (split at h <;> cases h)
-      | skip)
-    all_goals (first
-      | (rename_i c it; cases c <;> cases it <;> simp at h)
-      | skip)
+    cases op <;> simp only [docKind] at h
+    case add hh it => exact Or.inl (.add _ _)
+    case sub hh it => exact Or.inl (.sub _ _)
+    case mul hh n => exact Or.inl (.mul _ _)
+    case copy hh => exact Or.inl (.copy _)
+    case pickle hh k => exact Or.inl (.pickle _ _)
+    case deepcopy hh => exact Or.inl (.deepcopy _)
+    case append hh a c => cases c <;> simp at h
+    case insert hh i a c => cases c <;> simp at h
+    case extend hh it c => cases c <;> cases it <;> simp at h
+    case setitem hh i a c => cases c <;> simp at h
+    case setslice hh sl it c => cases c <;> simp at h
     case ctor src lat =>
       cases src with
       | none => simp at h
       | some it => cases it <;> first | exact Or.inr ⟨_, _, rfl⟩ | simp at h
+    all_goals cases h
   · rintro (h | ⟨h, lat, rfl⟩)
     · cases h <;> rfl
     · rfl
@@ -1016,9 +1022,9 @@ theorem selections_share_all (w : World) {h : Nat} {old : List Nat} (h1 : w.view
       simp only [hs] at hq
       rcases hk : old[k]? with _ | a
       · simp only [hk] at hq
-        simp only [World.stepFull, hp, hq]
+        simp only [World.stepFull, hp, hq, hk]
       · simp only [hk] at hq
-        simp only [World.stepFull, hp, hq, World.exec]
+        simp only [World.stepFull, hp, hq, hk, World.exec]
     | many idxs =>
       simp only [hs] at hq
       simp only [World.stepFull, hp, hq, selPlan, World.exec]
@@ -1098,5 +1104,30 @@ example : World.errTrace World.empty goodHistory3 =
   decide
 /-- `goodHistory2` (the non-vacuity witness of `no_alias_partial`) also satisfies the full side condition -/
 example : World.DupFreeHistX World.empty goodHistory2 := dupFreeHistX_of_dupFreeHist (by decide)
+
+instance decEqExcept {ε α : Type} [DecidableEq ε] [DecidableEq α] : DecidableEq (Except ε α)
+  | .ok a, .ok b => if h : a = b then isTrue (by rw [h]) else isFalse (by intro e; cases e; exact h rfl)
+  | .error a, .error b => if h : a = b then isTrue (by rw [h]) else isFalse (by intro e; cases e; exact h rfl)
+  | .ok _, .error _ => isFalse (by intro e; cases e)
+  | .error _, .ok _ => isFalse (by intro e; cases e)
+
+/-- for the `…_all` theorems: the classes are inhabited by the forms the hand-written enumerations left out, and
+the hypotheses are satisfiable on a concrete world -/
+example : docKind (.ctor (some (.stru 0)) (some (.ofStru 1))) = .copyNew ∧ docKind (.pickle 0 0) = .copyNew ∧
+    docKind (.setslice 0 ⟨none, none, some 2⟩ (.stru 1) true) = .copyInto ∧ docKind (.getitem 0 (.label 3)) = .selection ∧
+    docKind (.extend 0 (.tolist 1) .dflt) = .shareInto ∧ docKind (.ctor (some (.gen [])) none) = .shareInto := by decide
+def world3 : World := World.empty.run [.mkStru, .addNew 0 1, .addNew 0 2, .addNew 0 3, .mkStru, .addNew 1 7]
+example : Wf world3 := World.run_wf World.empty_wf _
+example : (world3.stepFull (.ctor (some (.stru 0)) (some (.ofStru 1)))).2 = .ok (.stru 2) ∧
+    (world3.stepFull (.pickle 0 1)).2 = .ok (.stru 2) ∧ world3.view.atoms 0 = .ok [0, 1, 2] := by decide
+example : (world3.stepFull (.ctor (some (.stru 0)) (some (.ofStru 1)))).1.latOf 2 = world3.latOf 1 :=
+  (copies_disjoint_all (op := .ctor (some (.stru 0)) (some (.ofStru 1))) (r := 2) (World.run_wf World.empty_wf _)
+    (by decide) (by decide)).2.2
+example : selPositions world3.pay [0, 1, 2] (.slice ⟨none, none, some (-2)⟩) = .ok (.many [2, 0]) ∧
+    selPositions world3.pay [0, 1, 2] (.label 2) = .ok (.one 1) ∧
+    selPositions world3.pay [0, 1, 2] (.tuple [.label 3, .int (-3), .int 2]) = .ok (.many [2, 0, 2]) ∧
+    selPositions world3.pay [0, 1, 2] (.mask [true, false]) = .error .index := by decide
+example : ((world3.stepFull (.setslice 0 ⟨none, none, some 2⟩ (.list [.mem 1 0, .mem 0 0]) true)).1.atomsOf 0) = [4, 1, 0] := by
+  decide
 
 end DS.Props.C08
